@@ -13,7 +13,7 @@ CHECKS = {
             "functions); Hypothesis adds shapes up to length 6 with integers up to 1e6. Exhaustive for the stated "
             "bound, sampled beyond it.",
             "Trusts the reference reading 'a<=b iff arrival via a is never later than via b for every departure "
-            "time'; reference-incomparable pairs carry no obligation.",
+            "time'; reference-incomparable pairs carry no obligation. Every comparable pair is also compared with operands that were used before (applied to a time, printed): the relation must not depend on an operand's history.",
             "DESIGN.md 4/C08"),
     "C12": ("exploration",
             "exhaustive enumeration of model descriptions and set-operator tables vs brute-force bitmask solver; "
@@ -33,7 +33,7 @@ CHECKS = {
             "Every (|src| 0..12, |dest| 1..8, evenly, max_connects) inside the documented precondition x 50 seeds is "
             "run against a recording World and checked for: each source once, only dest_set members, even spread / "
             "max_connects cap, returned set exact, no exception; a sample runs against a real World.",
-            "The helpers are assumed to use World.connect only; the seed of the global random module is part of the case.",
+            "The helpers are assumed to use World.connect only; the seed of the global random module is part of the case. A finite max_connects is passed as int or as a float with integral value.",
             "DESIGN.md 4/C18"),
     "C05": ("exploration",
             "Hypothesis-generated scenarios x schedules under a controlled asyncio selector (exact deadlock/livelock "
@@ -45,7 +45,7 @@ CHECKS = {
             "from FIFO in <= 2 (thorough 3) decision points.",
             "Scripted simulators; interleavings at event-loop-iteration granularity; until <= 8, <= 5 simulators. Open "
             "findings F04 (lazy wait cycle) and F05 (incomparable path delays) are excluded by narrow signatures that "
-            "are re-derived per case (differential lazy on/off; reference delay model).",
+            "are re-derived per case (differential lazy on/off; reference delay model). A sixth of the generated scenarios carry an async_requests flag on a data-flow (found F24/F25, both repaired).",
             "DESIGN.md 4/C05"),
     "C01": ("exploration",
             "Hypothesis-generated scenarios x schedules under a controlled asyncio selector + deviation-bounded "
@@ -62,7 +62,7 @@ CHECKS = {
             "The monitor derives the demanded tiered times from observed replies and requires each step to be the "
             "minimum outstanding demand, strictly increasing, inside [0, until), and no demand left at the end; "
             "debug runs compare the labels with the documented execution graph.",
-            "'Demanded' as read by the monitor (DESIGN 2.3); runs aborted by C05-class failures are counted, not judged.",
+            "'Demanded' as read by the monitor (DESIGN 2.3); runs aborted by C05-class failures are counted, not judged. Scenario-script styles (connect inside open groups, World.get_data before run, progress displays), value shapes and hierarchical child entities of a non-public model are part of the generated scenarios.",
             "DESIGN.md 4/C02"),
     "C03": ("exploration",
             "Hypothesis-generated scenarios x schedules; reference reconstruction of every step's inputs from the "
@@ -71,7 +71,7 @@ CHECKS = {
             "observed so far (persistent: most recent value due / initial data / None; events: each due value once). "
             "Open findings F10 (initial data in the shared source cache), F11 (event connection with initial data "
             "becomes memory) and F12 (integer-keyed buffers vs tiered time) are excluded by shape signatures.",
-            "Opaque JSON tokens; one connection per input slot; persistent attributes in every reply (DESIGN 2.3).",
+            "Opaque JSON tokens; one connection per input slot; persistent attributes in every reply (DESIGN 2.3). Values are unique tokens, JSON objects with changing key sets, lists, falsy values (explicit None, 0, '', False, [], {}) and a small repeating domain (the latter two for persistent outputs only); scenario scripts may query outputs with World.get_data before run().",
             "DESIGN.md 4/C03"),
     "C06": ("exploration",
             "exhaustive enumeration of small connection multigraphs x group placements (all graphs over 2 simulators, all "
@@ -98,7 +98,7 @@ CHECKS = {
             "guarded run must raise SimulationError naming a simulator over the bound iff somebody needs more than "
             "max, never execute more than max, and otherwise equal the unguarded run.",
             "Two-sided count-based claim only for loops with one weak edge per cycle (grid); in generated scenarios "
-            "the bound is read per sub-tier (sub-step index from the reference monitor's labels).",
+            "the bound is read per sub-tier (sub-step index from the reference monitor's labels). A no-loop family (one weak hop per time step closed by a time-shifted connection, run longer than the bound) is judged under the count-based claim; it reproduces the open finding F26.",
             "DESIGN.md 4/C09"),
     "C10": ("exploration",
             "Hypothesis-generated scenarios x schedules with lazy_stepping=True; history monitor + metamorphic "
@@ -115,7 +115,7 @@ CHECKS = {
             "inputs so any divergence propagates. Micro-topologies: every schedule within 2 (thorough 3) deviations "
             "from FIFO is compared with the FIFO run.",
             "Deterministic scripted simulators; differences whose earliest divergent step carries the monitor's "
-            "signature of open findings F10/F12 (or F04/F05 outcomes) are attributed to those findings.",
+            "signature of open findings F10/F12 (or F04/F05 outcomes) are attributed to those findings. Micro-topologies with falsy / repeating / object values and a constant measurement queried before run() get the complete variant set.",
             "DESIGN.md 4/C04"),
     "C13": ("fault_enumeration",
             "enumeration of every (simulator, step index) x malformed reply value on base scenarios (also in real-time "
@@ -136,7 +136,7 @@ CHECKS = {
             "raises: run() ends, the other processes finalize once and exit, no descriptor leak.",
             "Exhaustive enumeration on the in-memory transport; the real-process tier is sampled and uses wall-clock "
             "budgets (time-out re-run once); open finding F15 (runner tasks keep running during shutdown) excluded "
-            "by signature.",
+            "by signature. Fault kinds: exception types, close, reset, and close_after (the process ends between two requests; found F27, repaired); every fault is also run with the default and the per-simulator progress display.",
             "DESIGN.md 4/C14"),
     "C11": ("exploration",
             "model-based testing: Hypothesis-generated programs of scenario-API calls interpreted against the real "
@@ -149,7 +149,7 @@ CHECKS = {
             "Behavioural tier: a weak loop in one group and an observer in the same / nested / sibling / cousin / "
             "other-depth group under several schedules, judged by the history monitor (who may follow whose sub-steps).",
             "Attribute classes from C12's reference solver; the scoping tier trusts the monitor's reference group "
-            "semantics (calibrated on the repository's scenario expectations, DESIGN 10.8).",
+            "semantics (calibrated on the repository's scenario expectations, DESIGN 10.8). Every table row is also issued inside the still open group block(s) and with the string shorthand for equally named attributes.",
             "DESIGN.md 4/C11"),
     "C15": ("exploration",
             "complete version table (16 versions x explicit x 7 stub kinds x type) + Hypothesis versions; recorded "
@@ -158,7 +158,7 @@ CHECKS = {
             "is started and run: step has 2 positional arguments iff version < 3, setup_done iff >= 2.2, "
             "time_resolution iff the signatures accept it, missing type => time-based, ScenarioError iff >= 4 / "
             "explicit mismatch / v2 signatures claiming >= 3; (time, inputs) equal to the v3 stub's.",
-            "Numeric dotted versions; v3 without type is recorded, not judged.",
+            "Numeric dotted versions; v3 without type is recorded, not judged. Every in-process row is also run as the second of two instances whose init() return one shared meta dict.",
             "DESIGN.md 4/C15"),
     "C16": ("exploration",
             "Hypothesis-generated controller/agent scenarios x schedules + enumerated schedules; trace oracle for "
@@ -167,7 +167,7 @@ CHECKS = {
             "appear exactly once in the controller's next step, the controller must not begin a later step while an "
             "agent's step is unfinished, calls without an async_requests connection (first and repeated, set and get) "
             "must be refused with ScenarioError and leave no effect.",
-            "Values returned by async get_data are not judged.",
+            "Values returned by async get_data are not judged. set_data values are strings, JSON objects with changing key sets or lists.",
             "DESIGN.md 4/C16"),
     "C17": ("exploration",
             "Hypothesis-generated real-time cases on a virtual clock (loop.time, selector, perf_counter substituted): "
